@@ -61,6 +61,11 @@ byteswap_body_helper (DBusTypeReader       *reader,
         case DBUS_TYPE_BOOLEAN:
         case DBUS_TYPE_INT32:
         case DBUS_TYPE_UINT32:
+        case DBUS_TYPE_UNIX_FD:
+          /* A UNIX_FD value is an index into the attached descriptors,
+           * marshalled like a UINT32. A peer on the same machine may still
+           * choose the other byte order, so it has to be swapped like any
+           * other value. */
           {
             p = _DBUS_ALIGN_ADDRESS (p, 4);
             *((dbus_uint32_t*)p) = DBUS_UINT32_SWAP_LE_BE (*((dbus_uint32_t*)p));
@@ -186,11 +191,6 @@ byteswap_body_helper (DBusTypeReader       *reader,
             
             byteswap_body_helper (&sub, TRUE, old_byte_order, new_byte_order, p, &p);
           }
-          break;
-
-        case DBUS_TYPE_UNIX_FD:
-          /* fds can only be passed on a local machine, so byte order must always match */
-          _dbus_assert_not_reached("attempted to byteswap unix fds which makes no sense");
           break;
 
         default:
